@@ -10,7 +10,9 @@ import (
 	"encoding/json"
 	"fmt"
 	"os"
+	"runtime"
 	"strings"
+	"time"
 )
 
 type inputVal struct {
@@ -36,6 +38,8 @@ type Failure struct{ Label string }
 
 // AssumeFailed is the panic value when a replayed input violates an assumption.
 type AssumeFailed struct{}
+
+var baseGoroutines int
 
 var (
 	file   replayFile
@@ -70,6 +74,7 @@ func Begin(i int) (harness, expect string) {
 	load()
 	rf = file.Cases[i]
 	pos = 0
+	baseGoroutines = runtime.NumGoroutine()
 	return rf.Harness, rf.Expect
 }
 
@@ -151,8 +156,22 @@ func Concrete(x int) int { return x }
 // MapOrderNondet makes the executor explore every map iteration order.
 func MapOrderNondet(on bool) {}
 
-// LiveTasks reports the number of library goroutines still alive (executor only).
-func LiveTasks() int { return 0 }
+// LiveTasks reports the number of library goroutines still alive. Under the
+// executor these are the interpreter tasks other than the harness; natively the
+// goroutine count is compared with the count at the start of the case (the
+// goroutine running the harness itself excluded), allowing exiting goroutines
+// a moment to finish.
+func LiveTasks() int {
+	n := 0
+	for i := 0; i < 100; i++ {
+		n = runtime.NumGoroutine() - baseGoroutines - 1
+		if n <= 0 {
+			return 0
+		}
+		time.Sleep(5 * time.Millisecond)
+	}
+	return n
+}
 
 // Symbolic reports whether the harness runs under the symbolic executor.
 func Symbolic() bool { return false }
